@@ -402,6 +402,25 @@ func genValue(r *vu.Rng, kind string, seed uint64) (*data_model.MultiValue, int)
 	mv := &data_model.MultiValue{}
 	n := 1 + r.Intn(4)
 	distinct := map[int64]struct{}{}
+	if kind == "unique-wrap" {
+		seqs, d := wrapSeq(r)
+		for _, hs := range seqs {
+			mv.ApplyUnique(rng, hs, float64(len(hs)), pickHost(r))
+		}
+		return mv, d
+	}
+	if kind == "percentile-tiny" { // a centroid whose weight (times sf) is lost or denormal in float32
+		tiny := tinyWeights[r.Intn(len(tinyWeights))]
+		at := r.Intn(3)
+		for i := 0; i < 3+r.Intn(2); i++ {
+			w := float64(1 + r.Intn(4))
+			if i == at || r.Chance(15) {
+				w = tiny
+			}
+			mv.AddValueCounterHostPercentile(rng, float64(i*3+r.Intn(3)), w, pickHost(r), 256)
+		}
+		return mv, 0
+	}
 	for i := 0; i < n; i++ {
 		h := pickHost(r)
 		switch kind {
@@ -433,7 +452,97 @@ func genValue(r *vu.Rng, kind string, seed uint64) (*data_model.MultiValue, int)
 	return mv, len(distinct)
 }
 
-var valueKinds = []string{"counter", "value", "value", "percentile", "unique", "mixed"}
+var valueKinds = []string{"counter", "value", "value", "percentile", "unique", "mixed", "unique-wrap", "percentile-tiny"}
+
+// ---- directed unique sets: collision chains that wrap around the end of the table at the moment it grows ----
+
+var hashOf = func() func(uint64) uint32 {
+	var ch data_model.ChUnique
+	return func(v uint64) uint32 { return ch.VerifHash(v) }
+}()
+
+func placeAt(v uint64, degree uint) int { return int(hashOf(v)>>15) & ((1 << degree) - 1) }
+
+func findVal(r *vu.Rng, used map[uint64]bool, pred func(v uint64) bool) uint64 {
+	for v := uint64(1 + r.Intn(3000)); ; v++ {
+		if !used[v] && hashOf(v) != 0 && pred(v) {
+			used[v] = true
+			return v
+		}
+	}
+}
+
+// wrapSeq: three successive contributions for a table of 2^d cells (d = 4, 5, 6):
+//   A = fillers that bring the table to degree d, then 1-2 values whose home is one of the last two cells,
+//   B = 1-3 more values with the same home cells (they wrap to the front), then fillers until the table grows,
+//   C = the values of the chain once more (must be found, not inserted again), sometimes a fresh one.
+func wrapSeq(r *vu.Rng) (seqs [3][]int64, distinct int) {
+	d := uint(4 + r.Intn(3))
+	size := 1 << d
+	used := map[uint64]bool{}
+	last := func(v uint64) bool { return placeAt(v, d) >= size-1-r.Intn(2) }
+	lastUp := func(v uint64) bool { return placeAt(v, d) == size-1 && placeAt(v, d+1) == 2*size-1 }
+	lastLow := func(v uint64) bool { return placeAt(v, d) == size-1 && placeAt(v, d+1) == size-1 }
+	mid := func(v uint64) bool { p := placeAt(v, d); return p >= 2+r.Intn(3) && p < size-3 }
+	var a, b, c []uint64
+	count := 0
+	if d > 4 { // fillers that make the table grow to degree d: more than 2^(d-2) items
+		for count <= size/4 {
+			a = append(a, findVal(r, used, mid))
+			count++
+		}
+	}
+	var chain []uint64
+	if r.Bool() {
+		chain = append(chain, findVal(r, used, lastUp))
+	} else {
+		chain = append(chain, findVal(r, used, last))
+	}
+	a = append(a, chain[0])
+	count++
+	for n := 1 + r.Intn(3); n > 0; n-- {
+		var y uint64
+		if r.Chance(60) {
+			y = findVal(r, used, lastLow)
+		} else {
+			y = findVal(r, used, last)
+		}
+		chain = append(chain, y)
+		b = append(b, y)
+		count++
+	}
+	for count <= size/2 { // the next insert after maxFill triggers the resize
+		b = append(b, findVal(r, used, mid))
+		count++
+	}
+	for _, y := range chain {
+		if r.Chance(80) {
+			c = append(c, y)
+		}
+	}
+	if len(c) == 0 {
+		c = append(c, chain[len(chain)-1])
+	}
+	if r.Chance(30) {
+		c = append(c, findVal(r, used, mid))
+	}
+	if r.Chance(30) { // the same across one more growth
+		for n := size / 2; n > 0; n-- {
+			c = append(c, findVal(r, used, func(uint64) bool { return true }))
+		}
+		c = append(c, chain...)
+	}
+	conv := func(x []uint64) []int64 {
+		o := make([]int64, len(x))
+		for i, v := range x {
+			o[i] = int64(v)
+		}
+		return o
+	}
+	return [3][]int64{conv(a), conv(b), conv(c)}, len(used)
+}
+
+var tinyWeights = []float64{1e-50, 1e-46, 1.4e-45, 2.8e-45, 7e-46, 1e-45, 4.2e-45, 3e-39, 1e-300}
 
 func genKey(r *vu.Rng, t uint32, metricPool int) data_model.Key {
 	k := data_model.Key{Timestamp: t, Metric: int32(1 + r.Intn(metricPool))}
@@ -551,8 +660,10 @@ func rowCase(o *vu.Out, r *vu.Rng, idx int) {
 	fail := func(name string) { fails = append(fails, name) }
 	hv := [3]uint32{}
 	utable, amin, amax := "(0,0,[])", "([],0,0)", "([],0,0)"
-	if err != nil || len(rest) != 0 {
+	if err != nil {
 		fail("row_does_not_decode")
+	} else if len(rest) != 0 {
+		fail("row_fully_consumed")
 	} else {
 		// keys
 		for i := 0; i < format.MaxTags-1; i++ {
@@ -597,8 +708,8 @@ func rowCase(o *vu.Out, r *vu.Rng, idx int) {
 			if !same {
 				fail("unique_state_roundtrip")
 			}
-			if kind == "unique" && (u.Size(true) != uint64(distinct) || us.Skip != 0) {
-				fail("unique_not_exact_below_limit")
+			if (kind == "unique" || kind == "unique-wrap") && (u.Size(true) != uint64(distinct) || us.Skip != 0 || len(a) != distinct) {
+				fail("unique_exact_below_limit")
 			}
 			utable = wireTerm(u)
 		}
@@ -606,19 +717,43 @@ func rowCase(o *vu.Out, r *vu.Rng, idx int) {
 		if td, err := readDigest(d.cents); err != nil {
 			fail("centroids_unreadable")
 		} else {
+			// every centroid whose weight is representable (> 0) in float32 must be read back; the reader drops the others
 			var wantC []tdigest.Centroid
+			written, small := 0, false
+			var wantW float64
 			if mv.ValueTDigest != nil {
 				for _, c := range mv.ValueTDigest.Centroids() {
-					wantC = append(wantC, tdigest.Centroid{Mean: float64(float32(c.Mean)), Weight: float64(float32(c.Weight * sf))})
+					written++
+					w := float64(float32(c.Weight * sf))
+					if w < 1e-3 {
+						small = true
+					}
+					if w > 0 {
+						wantC = append(wantC, tdigest.Centroid{Mean: float64(float32(c.Mean)), Weight: w})
+						wantW += w
+					}
 				}
 			}
-			got := td.Centroids()
-			same := len(got) == len(wantC)
-			for i := 0; same && i < len(got); i++ {
-				same = got[i] == wantC[i]
+			if n, k := binary.Uvarint(d.cents); k <= 0 || int(n) != written || len(d.cents) != k+8*written {
+				fail("centroids_count_and_payload_disagree")
 			}
-			if !same {
-				fail("centroids_roundtrip")
+			got := td.Centroids()
+			if !small {
+				same := len(got) == len(wantC)
+				for i := 0; same && i < len(got); i++ {
+					same = got[i] == wantC[i]
+				}
+				if !same {
+					fail("centroids_roundtrip")
+				}
+			} else { // the digest may fold denormal weights into a neighbour: compare number (at most) and total weight
+				var gotW float64
+				for _, c := range got {
+					gotW += c.Weight
+				}
+				if len(got) > len(wantC) || (len(wantC) > 0 && len(got) == 0) || math.Abs(gotW-wantW) > 1e-6*wantW {
+					fail("centroids_roundtrip")
+				}
 			}
 		}
 		// hosts through the real column readers
@@ -805,6 +940,129 @@ func makeAgent(dir string) *agent.Agent {
 
 type bodyOpts struct {
 	hostile string // "", "slot47", "both"
+	pool    bool   // several agents send subsets of one pool of keys (different lengths) in different orders
+}
+
+type planRow struct {
+	row  *agentRow
+	uniq []int64 // the row is a unique-only contribution of these values
+	tiny bool    // the row carries a centroid weight that float32 loses
+}
+
+// poolPlan: 2-3 agents, each sends a random permutation of a random subset of one pool of keys. The pool mixes
+// short keys ending in an (unmapped) string tag with longer keys (many int tags with non-zero bytes, long strings),
+// so that the handler's one scratch buffer holds a longer key before a shorter one in some requests and not in others.
+// One key may be a unique-only series whose contributions form a wrap-around collision chain across a table growth,
+// one may be a percentile series with a contribution whose weight is lost in float32.
+func poolPlan(r *vu.Rng, base uint32) [][]planRow {
+	var pool []data_model.Key
+	mk := func(f func(k *data_model.Key)) {
+		k := data_model.Key{Timestamp: base, Metric: int32(1 + r.Intn(2))}
+		f(&k)
+		pool = append(pool, k)
+	}
+	nshort := 2 + r.Intn(3)
+	for i := 0; i < nshort; i++ { // short keys whose last byte is the terminator of a string tag
+		mk(func(k *data_model.Key) {
+			switch r.Intn(4) {
+			case 0:
+				k.STags[0] = fmt.Sprintf("s%d", i)
+			case 1:
+				k.Tags[0] = int32(1 + r.Intn(3))
+				k.STags[1+r.Intn(3)] = fmt.Sprintf("v%d", i)
+			case 2:
+				k.STags[r.Intn(4)] = strings.Repeat("q", 1+r.Intn(6)) + fmt.Sprint(i)
+			default:
+				k.Tags[2] = int32(r.U32() | 0x01010101)
+				k.STags[3] = fmt.Sprintf("w%d", i)
+				k.STags[5] = "e"
+			}
+		})
+	}
+	for i := 0; i < 1+r.Intn(3); i++ { // longer keys
+		mk(func(k *data_model.Key) {
+			switch r.Intn(3) {
+			case 0:
+				for t := 0; t < 6+r.Intn(20); t++ {
+					k.Tags[t] = int32(r.U32() | 0x01010101)
+				}
+			case 1:
+				k.STags[r.Intn(3)] = strings.Repeat("L", 20+r.Intn(60)) + fmt.Sprint(i)
+			default:
+				for t := 0; t < 4+r.Intn(8); t++ {
+					k.Tags[t] = int32(r.U32() | 0x01010101)
+				}
+				k.STags[12+r.Intn(4)] = strings.Repeat("M", 5+r.Intn(30)) + fmt.Sprint(i)
+			}
+		})
+	}
+	uniqKey, tinyKey := -1, -1
+	if r.Chance(50) {
+		uniqKey = r.Intn(len(pool))
+	}
+	if r.Chance(30) {
+		tinyKey = r.Intn(len(pool))
+		if tinyKey == uniqKey {
+			tinyKey = -1
+		}
+	}
+	seqs, _ := wrapSeq(r)
+	nextSeq := 0
+	tinyAt := r.Intn(2)
+	nagents := 2 + r.Intn(2)
+	if uniqKey >= 0 {
+		nagents = 3
+	}
+	plan := make([][]planRow, nagents)
+	for a := 0; a < nagents; a++ {
+		perm := make([]int, len(pool))
+		for i := range perm {
+			perm[i] = i
+		}
+		for i := len(perm) - 1; i > 0; i-- {
+			j := r.Intn(i + 1)
+			perm[i], perm[j] = perm[j], perm[i]
+		}
+		for _, ki := range perm {
+			if ki != uniqKey && ki != tinyKey && r.Chance(25) {
+				continue // not every agent has every series
+			}
+			row := &agentRow{key: pool[ki], top: map[data_model.TagUnion]*data_model.MultiValue{}}
+			pr := planRow{row: row}
+			rng := rand.New(r.U64())
+			switch ki {
+			case uniqKey:
+				hs := seqs[nextSeq%3]
+				nextSeq++
+				row.tail = &data_model.MultiValue{}
+				row.tail.ApplyUnique(rng, hs, float64(len(hs)), pickHost(r))
+				pr.uniq = hs
+			case tinyKey:
+				row.hasp = true
+				row.tail = &data_model.MultiValue{}
+				if a == tinyAt { // a single value with a valid but tiny counter: sent as implicit centroid
+					row.tail.AddValueCounterHostPercentile(rng, float64(100+r.Intn(5)), tinyWeights[r.Intn(2)], pickHost(r), 256)
+					pr.tiny = true
+				} else {
+					row.tail.AddValueCounterHostPercentile(rng, float64(3*a), float64(1+r.Intn(3)), pickHost(r), 256)
+					row.tail.AddValueCounterHostPercentile(rng, float64(3*a+1), float64(1+r.Intn(3)), pickHost(r), 256)
+				}
+			default:
+				kind := []string{"counter", "value", "value", "unique", "mixed"}[r.Intn(5)]
+				row.tail, _ = genValue(r, kind, r.U64())
+				if r.Chance(25) {
+					row.top[genTop(r)], _ = genValue(r, "value", r.U64())
+				}
+			}
+			plan[a] = append(plan[a], pr)
+		}
+		if len(plan[a]) == 0 {
+			row := &agentRow{key: pool[0], top: map[data_model.TagUnion]*data_model.MultiValue{}}
+			row.tail, _ = genValue(r, "counter", r.U64())
+			plan[a] = append(plan[a], planRow{row: row})
+		}
+	}
+	return plan
 }
 
 func bodyCase(o *vu.Out, r *vu.Rng, sh2 *agent.Agent, opt bodyOpts) (dupFound bool) {
@@ -819,50 +1077,71 @@ func bodyCase(o *vu.Out, r *vu.Rng, sh2 *agent.Agent, opt bodyOpts) (dupFound bo
 	var text []string
 	nItems, merges := 0, 0
 	accepted := true
+	randomRow := func(j int) *agentRow {
+		row := &agentRow{key: genKey(r, base, metricPool), top: map[data_model.TagUnion]*data_model.MultiValue{}, hasp: r.Chance(30)}
+		if r.Chance(40) { // collide with an earlier key on purpose
+			row.key = data_model.Key{Timestamp: base, Metric: int32(1 + r.Intn(metricPool))}
+			row.key.Tags[1] = int32(1 + r.Intn(2))
+		}
+		if r.Chance(15) {
+			row.key.Timestamp = base - uint32(1+r.Intn(5)) // an older event second inside the same bucket
+		}
+		switch opt.hostile {
+		case "slot47":
+			row.key = data_model.Key{Timestamp: base, Metric: 1}
+			row.key.Tags[format.StringTopTagIndexV3] = int32(1 + j)
+		case "both":
+			row.key = data_model.Key{Timestamp: base, Metric: 1}
+			row.key.Tags[3] = 5
+			if j%2 == 1 {
+				row.key.STags[3] = "both"
+			}
+		}
+		kind := valueKinds[r.Intn(len(valueKinds))]
+		if kind == "percentile-tiny" || (kind == "percentile" && !row.hasp) {
+			kind = "value"
+		}
+		row.tail, _ = genValue(r, kind, r.U64())
+		if r.Chance(10) {
+			row.tail = &data_model.MultiValue{}
+		}
+		if r.Chance(35) {
+			for n := 1 + r.Intn(3); n > 0; n-- {
+				k2 := kind
+				if k2 == "percentile" || r.Chance(30) {
+					k2 = "value"
+				}
+				row.top[genTop(r)], _ = genValue(r, k2, r.U64())
+			}
+		}
+		if row.tail.Empty() && len(row.top) == 0 {
+			row.tail, _ = genValue(r, "counter", r.U64())
+		}
+		return row
+	}
+	var plan [][]planRow
+	if opt.pool {
+		plan = poolPlan(r, base)
+		nreq = len(plan)
+	}
+	expectUniq := map[string]map[int64]bool{}
+	tinyCase := false
 	for a := 0; a < nreq; a++ {
 		host := fmt.Sprintf("agent%d", r.Intn(3))
 		ah := data_model.TagUnion{S: host}
 		var items []tlstatshouse.MultiItem
 		nrows := 1 + r.Intn(4)
+		if plan != nil {
+			nrows = len(plan[a])
+		}
 		for j := 0; j < nrows; j++ {
-			row := &agentRow{key: genKey(r, base, metricPool), top: map[data_model.TagUnion]*data_model.MultiValue{}, hasp: r.Chance(30)}
-			if r.Chance(40) { // collide with an earlier key on purpose
-				row.key = data_model.Key{Timestamp: base, Metric: int32(1 + r.Intn(metricPool))}
-				row.key.Tags[1] = int32(1 + r.Intn(2))
-			}
-			if r.Chance(15) {
-				row.key.Timestamp = base - uint32(1+r.Intn(5)) // an older event second inside the same bucket
-			}
-			switch opt.hostile {
-			case "slot47":
-				row.key = data_model.Key{Timestamp: base, Metric: 1}
-				row.key.Tags[format.StringTopTagIndexV3] = int32(1 + j)
-			case "both":
-				row.key = data_model.Key{Timestamp: base, Metric: 1}
-				row.key.Tags[3] = 5
-				if j%2 == 1 {
-					row.key.STags[3] = "both"
-				}
-			}
-			kind := valueKinds[r.Intn(len(valueKinds))]
-			if kind == "percentile" && !row.hasp {
-				kind = "value"
-			}
-			row.tail, _ = genValue(r, kind, r.U64())
-			if r.Chance(10) {
-				row.tail = &data_model.MultiValue{}
-			}
-			if r.Chance(35) {
-				for n := 1 + r.Intn(3); n > 0; n-- {
-					k2 := kind
-					if k2 == "percentile" || r.Chance(30) {
-						k2 = "value"
-					}
-					row.top[genTop(r)], _ = genValue(r, k2, r.U64())
-				}
-			}
-			if row.tail.Empty() && len(row.top) == 0 {
-				row.tail, _ = genValue(r, "counter", r.U64())
+			var row *agentRow
+			var pr planRow
+			if plan != nil {
+				pr = plan[a][j]
+				row = pr.row
+			} else {
+				row = randomRow(j)
 			}
 			item, order := assemble(row, base)
 			items = append(items, item)
@@ -880,6 +1159,18 @@ func bodyCase(o *vu.Out, r *vu.Rng, sh2 *agent.Agent, opt bodyOpts) (dupFound bo
 				c.add(&mv.Value)
 			}
 			add(data_model.TagUnion{}, row.tail)
+			if pr.uniq != nil {
+				wk := writtenKey(&row.key, data_model.TagUnion{})
+				if expectUniq[wk] == nil {
+					expectUniq[wk] = map[int64]bool{}
+				}
+				for _, v := range pr.uniq {
+					expectUniq[wk][v] = true
+				}
+			}
+			if pr.tiny {
+				tinyCase = true
+			}
 			var tops []string
 			for _, tk := range order {
 				add(tk, row.top[tk])
@@ -895,7 +1186,7 @@ func bodyCase(o *vu.Out, r *vu.Rng, sh2 *agent.Agent, opt bodyOpts) (dupFound bo
 			accepted = false
 		}
 	}
-	input := fmt.Sprintf("body rk=%d base=%d hostile=%q requests=%d rows=[%s]", rk, base, opt.hostile, nreq, strings.Join(text, " | "))
+	input := fmt.Sprintf("body rk=%d base=%d hostile=%q pool=%v requests=%d rows=[%s]", rk, base, opt.hostile, opt.pool, nreq, strings.Join(text, " | "))
 	if len(input) > 1500 {
 		input = input[:1500] + "…"
 	}
@@ -947,6 +1238,18 @@ func bodyCase(o *vu.Out, r *vu.Rng, sh2 *agent.Agent, opt bodyOpts) (dupFound bo
 		if d.agg != want {
 			fails = append(fails, "body_aggregates_not_the_merge")
 		}
+		// the aggregate states of every row must be readable by the API's column readers
+		if u, err := readUnique(d.uniq); err != nil {
+			fails = append(fails, "unique_state_unreadable")
+		} else if vals := expectUniq[wk]; vals != nil && seen[wk] == 1 {
+			// "unique-count estimates are exact while a row holds fewer distinct values than the exact-mode limit"
+			if u.Size(true) != uint64(len(vals)) || len(sortedSet(u)) != len(vals) {
+				fails = append(fails, "unique_exact_below_limit")
+			}
+		}
+		if _, err := readDigest(d.cents); err != nil {
+			fails = append(fails, "centroids_unreadable")
+		}
 	}
 	for wk, c := range expect {
 		if c.count > 0 && seen[wk] == 0 {
@@ -954,7 +1257,7 @@ func bodyCase(o *vu.Out, r *vu.Rng, sh2 *agent.Agent, opt bodyOpts) (dupFound bo
 		}
 	}
 	term := "CNone"
-	if opt.hostile == "" {
+	if opt.hostile == "" && !tinyCase {
 		term = fmt.Sprintf("(CBody %s [%s] %s)", tab.term(), strings.Join(cterms, ";"), segs(body))
 	}
 	kinds := []string{"body"}
@@ -963,6 +1266,15 @@ func bodyCase(o *vu.Out, r *vu.Rng, sh2 *agent.Agent, opt bodyOpts) (dupFound bo
 	}
 	if opt.hostile != "" {
 		kinds = append(kinds, "body/hostile-"+opt.hostile)
+	}
+	if opt.pool {
+		kinds = append(kinds, "body/key-pool")
+	}
+	if len(expectUniq) > 0 {
+		kinds = append(kinds, "body/unique-wrap-chain")
+	}
+	if tinyCase {
+		kinds = append(kinds, "body/tiny-centroid-weight")
 	}
 	line := o.Case(input, term, merges > 0 && user >= 2, kinds...)
 	o.Hist["body/user-rows"] += user
@@ -1074,9 +1386,9 @@ func main() {
 	for i := 0; i < *n; i++ {
 		switch {
 		case i%8 == 7:
-			opt := bodyOpts{}
+			opt := bodyOpts{pool: i%16 == 15}
 			if i%64 == 63 {
-				opt.hostile = []string{"slot47", "both"}[r.Intn(2)]
+				opt = bodyOpts{hostile: []string{"slot47", "both"}[r.Intn(2)]}
 			}
 			bodyCase(o, r, sh2, opt)
 		case i%16 == 3:
